@@ -62,6 +62,23 @@ def flags(concrete):
 # ------------------------------------------------------------------------------------------------ families
 def mask_family():
     m = inner.mask()
+    if "bwd_restores" in OB:        # C06 round trips of MaskCombinator.edit (the flag-flip case is a recorded known finding)
+        flips = "flag_flip" in OB
+        for pre, post in (((True, False), (False, True)) if flips else ((True, True), (False, False))):
+            for conc in (True, False):
+                f = (lambda b: b) if conc else (lambda b: jnp.array(b))
+                tr = m.simulate(KEY, (f(pre), 0.3))
+                ad = (Diff(f(post), UnknownChange), Diff(0.9, UnknownChange))
+                new, w, rd, bwd = m.edit(KEY, tr, Update(C.kw(x=5.0)), ad)
+                back, w2, _, _ = m.edit(KEY, new, bwd, (Diff(f(pre), UnknownChange), Diff(0.3, UnknownChange)))
+                ok = close(back.get_score(), tr.get_score()) and close(w2, -w)
+                if pre and ok:
+                    ok = close(val(back.get_choices()["x"]), val(tr.get_choices()["x"]))
+                if not ok:
+                    fail("mask.edit: applying the backward request does not restore the original trace / weight -w", pre=pre, post=post,
+                         concrete=conc, w=w, w2=w2, score=back.get_score(), want_score=tr.get_score(),
+                         x=val(back.get_choices()["x"]) if pre else None, want_x=val(tr.get_choices()["x"]) if pre else None)
+        return
     for conc in (True, False):
         for pre in flags(conc):
             tr = m.simulate(KEY, (pre, 0.3))
